@@ -360,6 +360,7 @@ class Gen:
         k = r.below(3)
         if dead_c and (k == 0 or not (dead_f or dead_e)):
             c = r.pick(dead_c); self.do("@AddC %d %s" % (r.below(2), " ".join(map(str, s.C[c]))))
+            self.last_readded = list(s.C[c])
             if r.chance(1, 2):   # one more cell so that the re-added one is not the last slot
                 base = self.st().nv; self.add_vertices(4); self.add_tet(base, base + 1, base + 2, base + 3)
         elif dead_f and (k == 1 or not dead_e):
@@ -523,6 +524,13 @@ class Gen:
                 if c < 6:
                     self.delete_some("CCFE"); self.readd()
                     if r.chance(1, 2): self.readd()
+                    # renumber around the stale/live pair right away (scan and cache-guided swap paths, fast deletions)
+                    lr = getattr(self, "last_readded", None)
+                    if lr and len(lr) >= 2 and r.chance(1, 2):
+                        a, b = r.shuffle(lr)[:2]
+                        if a // 2 < len(self.st().F) and b // 2 < len(self.st().F): self.do("@SwapF %d %d" % (a // 2, b // 2))
+                    if r.chance(1, 2): self.swap_some()
+                    if r.chance(1, 3): self.swap_some()
                 elif c < 8: self.do("GC")
                 elif c < 9: self.do("EnDef 0"); self.do("EnDef 1")
                 elif c < 11: self.swap_some()
